@@ -25,12 +25,14 @@ Keywords == StrictKeywords \cup ReservedKeywords
 
 \* other naming styles that have to survive
 Styles == {"camelCase", "snake_case", "PascalCase", "SCREAMING_CASE", "_leading", "trailing_",
-    "with1digit", "x", "ID", "iD2x", "kebabless", "async_", "Type", "MATCH"}
+    "with1digit", "x", "ID", "iD2x", "kebabless", "async_", "Type", "MATCH",
+    \* names that case conversion turns into non-identifiers (it strips leading underscores): defect D28
+    "_", "_1", "_9lives"}
 Pool == Keywords \cup Styles
 
 \* all names of the pool in byte order (str::cmp)
 ByteOrder ==
-  <<"ID", "MATCH", "PascalCase", "SCREAMING_CASE", "Self", "Type", "_leading", "abstract",
+  <<"ID", "MATCH", "PascalCase", "SCREAMING_CASE", "Self", "Type", "_", "_1", "_9lives", "_leading", "abstract",
     "as", "async", "async_", "await", "become", "box", "break", "camelCase", "const",
     "continue", "crate", "do", "dyn", "else", "enum", "extern", "false", "final", "fn", "for",
     "iD2x", "if", "impl", "in", "kebabless", "let", "loop", "macro", "match", "mod", "move",
@@ -53,5 +55,10 @@ Sorted(t) == \A i \in 1..(Len(t) - 1) : Less(t[i], t[i + 1])
 Range(t) == {t[i] : i \in 1..Len(t)}
 
 \* reference: the Rust identifier used for a GraphQL name that is already in the right case
-Escape(n) == IF n \in Keywords THEN n \o "_" ELSE n
+\* (after case conversion a name can be empty, a lone underscore or start with a digit: those get an
+\* underscore in front - `snake_case("_1") = "1"` is written `_1`, `snake_case("_") = ""` is written `__`)
+DigitFirst == {"1", "9lives"}
+Escape(n) == IF n \in {"", "_"} THEN "__"
+             ELSE IF n \in DigitFirst THEN "_" \o n
+             ELSE IF n \in Keywords THEN n \o "_" ELSE n
 =============================================================================
